@@ -86,6 +86,17 @@ impl SatModel {
   }
 
   pub fn apply_block(&mut self, block: &Block) {
+    self.apply_block_with(block, |_, _, _, _| {});
+  }
+
+  /// Like `apply_block`; `on_tx(model_before_tx, tx_index, tx, concatenated_input_ranges)` is
+  /// called for every transaction just before its sats are assigned (for the
+  /// coinbase the input ranges are subsidy ++ fees).
+  pub fn apply_block_with(
+    &mut self,
+    block: &Block,
+    mut on_tx: impl FnMut(&SatModel, usize, &Transaction, &[(u64, u64)]),
+  ) {
     let height = self.blocks;
     let mut coinbase_queue: VecDeque<(u64, u64)> = VecDeque::new();
     let s = subsidy(height);
@@ -93,20 +104,27 @@ impl SatModel {
       let start = first_sat(height);
       coinbase_queue.push_back((start, start + s));
     }
-    for tx in block.txdata.iter().skip(1) {
+    for (i, tx) in block.txdata.iter().enumerate().skip(1) {
       let mut queue: VecDeque<(u64, u64)> = VecDeque::new();
       for input in &tx.input {
         let ranges = self
           .utxo
-          .remove(&input.previous_output)
+          .get(&input.previous_output)
           .unwrap_or_else(|| panic!("reference model: input {} not unspent", input.previous_output));
+        queue.extend(ranges.iter().cloned());
+      }
+      let snapshot: Vec<(u64, u64)> = queue.iter().cloned().collect();
+      on_tx(self, i, tx, &snapshot);
+      for input in &tx.input {
+        self.utxo.remove(&input.previous_output);
         self.meta.remove(&input.previous_output);
-        queue.extend(ranges);
       }
       self.assign(tx, &mut queue);
       coinbase_queue.extend(queue); // fees, in block order
     }
     if let Some(cb) = block.txdata.first() {
+      let snapshot: Vec<(u64, u64)> = coinbase_queue.iter().cloned().collect();
+      on_tx(self, 0, cb, &snapshot);
       self.assign(cb, &mut coinbase_queue);
     }
     self.lost.extend(coinbase_queue);
